@@ -88,6 +88,26 @@ theorem id_ok_iff_identifiable {topo : MG Name → Except Err (List Name)} (ht :
     · exact he
     · exact absurd h ((id_refuses_iff_not_identifiable ht ts G X Y hq hX).mp he)
 
+/-- through the public wrapper: `identify_outcomes` returns `None` exactly when the effect is not identifiable, and
+an estimand exactly when it is -/
+theorem identifyOutcomes_none_iff_not_identifiable {topo : MG Name → Except Err (List Name)} (ht : TopoGood topo)
+    (ts : TopoSound topo) (G : MG Name) (X Y : List Name) (hq : ValidQuery G X Y) (hX : ∀ x ∈ X, x ∈ G.nodes) :
+    identifyOutcomes topo G X Y = .ok none ↔ ¬ Identifiable G X Y := by
+  rw [← id_refuses_iff_not_identifiable ht ts G X Y hq hX]
+  unfold identifyOutcomes
+  cases h : identify topo G X Y with
+  | ok e => simp
+  | error e => cases e <;> simp
+
+theorem identifyOutcomes_some_iff_identifiable {topo : MG Name → Except Err (List Name)} (ht : TopoGood topo)
+    (ts : TopoSound topo) (G : MG Name) (X Y : List Name) (hq : ValidQuery G X Y) (hX : ∀ x ∈ X, x ∈ G.nodes) :
+    (∃ e, identifyOutcomes topo G X Y = .ok (some e)) ↔ Identifiable G X Y := by
+  rw [← id_ok_iff_identifiable ht ts G X Y hq hX]
+  unfold identifyOutcomes
+  cases h : identify topo G X Y with
+  | ok e => simp
+  | error e => cases e <;> simp
+
 /-- **the hedge criterion** (Shpitser & Pearl 2006, Theorems 4 and 5 with the soundness of ID): on a well-formed
 acyclic graph, `P(y | do(x))` is identifiable exactly when the graph contains no hedge for it -/
 theorem identifiable_iff_no_hedge (G : MG Name) (X Y : List Name) (hG : G.WF) (hac : G.Acyclic)
